@@ -47,6 +47,8 @@ structure St where
   devs : Array FlatDev := #[]
   -- observations
   res : String := ""
+  resLib : Bool := false       -- the raised exception is an instance of the library's UpnpError
+  linked : Bool := true        -- no broken back-pointer reported
   rows : Array (DevRow FV) := #[]
   bad : List String := []
 
@@ -110,6 +112,14 @@ def parseIdxList (t : String) : Option (List Nat) :=
 def parseOptIdx (t : String) : Option (Option Nat) :=
   if t = "~" then some none else t.toNat?.map some
 
+/-- `~` = empty, otherwise comma-separated hex strings -/
+def parseStrList (t : String) : Option (List Str) :=
+  if t = "~" then some [] else (t.splitOn ",").mapM parseStrArg
+
+/-- `~` = empty list; items `!` = None -/
+def parseOptIdxList (t : String) : Option (List (Option Nat)) :=
+  if t = "~" then some [] else (t.splitOn ",").mapM fun x => if x = "!" then some none else x.toNat?.map some
+
 def stepLine (st : St) (toks : List String) : St :=
   let fail (m : String) : St := { st with bad := m :: st.bad }
   match toks with
@@ -154,10 +164,26 @@ def stepLine (st : St) (toks : List String) : St :=
             updLast l (fun a => { a with args := a.args ++ [g] })) }
       | _, _, _ => fail "bad arg"
   | ["res", r] => { st with res := r }
+  | ["res", r, l] => { st with res := r, resLib := l = "L1" }
+  | "olink" :: _ => { st with linked := false }
   | "odev" :: d :: u :: info =>
       match d.toNat?, parseStrArg u, info.mapM optStr with
-      | some n, some u, some i => { st with rows := st.rows.push { depth := n, info := i, url := u, icons := [], services := [] } }
+      | some n, some u, some i =>
+          let row : DevRow FV := { depth := n, info := i, url := u, icons := [], services := [], svcKeys := [], embKeys := [],
+                                   svcByType := [], svcById := [], svcLooks := [] }
+          { st with rows := st.rows.push row }
       | _, _, _ => fail "bad odev"
+  | ["okeys", sk, ek, bt, bi] =>
+      match parseStrList sk, parseStrList ek, parseOptIdxList bt, parseOptIdxList bi with
+      | some sk, some ek, some bt, some bi =>
+          st.updLastRow fun r => { r with svcKeys := sk, embKeys := ek, svcByType := bt, svcById := bi }
+      | _, _, _, _ => fail "bad okeys"
+  | ["oskeys", vk, ak, vn, an] =>
+      match parseStrList vk, parseStrList ak, parseOptIdxList vn, parseOptIdxList an with
+      | some vk, some ak, some vn, some an =>
+          let lk : SvcLook := { varKeys := vk, actKeys := ak, varByName := vn, actByName := an }
+          st.updLastRow fun r => { r with svcLooks := r.svcLooks ++ [lk] }
+      | _, _, _, _ => fail "bad oskeys"
   | ["oicon", a, b, c, d, e] =>
       match parseStrArg a, parseIntTok b, parseIntTok c, parseIntTok d with
       | some a, some b, some c, some d =>
@@ -184,7 +210,7 @@ def stepLine (st : St) (toks : List String) : St :=
   | ["oarg", n, d, r, rt, b, lk, lkn] =>
       match parseStrArg n, parseStrArg d, parseStrArg r, parseStrArg rt, parseOptIdx lk, parseOptIdx lkn with
       | some n, some d, some r, some rt, some lk, some lkn =>
-          let st := if b = "1" then st else { st with bad := "argument not bound to the service's variable object" :: st.bad }
+          let st := if b = "1" then st else { st with linked := false }
           let g : ArgM := { name := n, direction := d, related := r, relatedType := rt }
           st.updLastOSvc fun s => { s with actions := updLast s.actions (fun a =>
             { a with args := a.args ++ [g], byNameDir := a.byNameDir ++ [lk], byName := a.byName ++ [lkn] }) }
@@ -212,13 +238,15 @@ def fmtFErr : FErr → String
   | .upnpError => "!UpnpError"
   | .keyError => "!RAW:KeyError"
   | .raw e => fmtErr e
+  | .library => "!LIBRARY"
   | .unmodelled => "!UNMODELLED"
 
-def parseFErr (t : String) : FErr :=
+def parseFErr (t : String) (isLib : Bool) : FErr :=
   if t = "!UpnpXmlContentError" then .xmlContent
   else if t = "!UpnpXmlParseError" then .xmlParse
   else if t = "!UpnpResponseError" then .response
   else if t = "!UpnpError" then .upnpError
+  else if isLib then .library
   else if t = "!RAW:KeyError" then .keyError
   else .raw (parseErr t)
 
@@ -263,7 +291,9 @@ def diffRow (x y : DevRow FV) : String :=
   else
     match (x.services.zip y.services).find? (fun p => p.1 != p.2) with
     | some (a, b) => diffSvc a b
-    | none => "same"
+    | none =>
+      s!"lookups: impl keys={x.svcKeys.map sOf}/{x.embKeys.map sOf} service(type)={x.svcByType} service_id(id)={x.svcById} per-service={repr x.svcLooks}"
+        ++ s!" <> expected keys={y.svcKeys.map sOf}/{y.embKeys.map sOf} service(type)={y.svcByType} service_id(id)={y.svcById} per-service={repr y.svcLooks}"
 
 /-- first differing row of two dumps -/
 def firstDiff (a b : List (DevRow FV)) : String :=
@@ -289,15 +319,17 @@ def finish (st : St) : String × Bool × Bool × List String :=
         | .error e => if fmtFErr e = st.res then (true, []) else (false, [s!"corr: impl res={st.res} model={fmtFErr e}"])
       -- judge: the implementation's dump against the specification
       let implRes : Except FErr (List (DevRow FV)) :=
-        if st.res = "ok" then .ok st.rows.toList else .error (parseFErr st.res)
-      let obs : Observed FV := observedOf implRes
+        if st.res = "ok" then .ok st.rows.toList else .error (parseFErr st.res st.resLib)
+      let obs : Observed FV := match observedOf implRes with
+        | .created rows _ => .created rows st.linked
+        | o => o
       let jok := judge fo tb normRow st.nonStrict st.base d obs
       let jnote : List String :=
         if jok then [] else
           match mirror fo tb st.nonStrict st.base d with
           | .ok dm => [s!"judge: res={st.res} {firstDiff obsRows ((flatten 0 dm).map normRow)}"]
           | .error e => [s!"judge: expected {fmtFErr e} got {st.res}"]
-      let wf := d.wf fo tb st.base && urlsOk st.base d
+      let wf := judged fo tb st.nonStrict st.base d
       let bad := st.bad
       (if wf then "wf" else "nonwf", corr && bad.isEmpty, jok, bad ++ cnote ++ jnote)
   | _ => ("badforest", false, true, ["could not rebuild the device tree"])
